@@ -16,10 +16,14 @@ import MetricsVerif.Driver.Bucket
 import MetricsVerif.Driver.Reservoir
 import MetricsVerif.Driver.Statsd
 import MetricsVerif.Driver.Registry
+import MetricsVerif.Driver.Debugging
+import MetricsVerif.Driver.Allowlist
 
 open MetricsVerif.Driver
 
 structure DState where
+  allow : Option MetricsVerif.Allowlist.Sess := none
+  debug : Option Debugging.DSt := none
   registry : Option Registry.St := none
   reservoir : Option MetricsVerif.Reservoir.ASR := none
   cow : Cow.DSt := {}
@@ -68,6 +72,14 @@ def step (st : DState) (line : String) : DState × String :=
   | "registry" :: args =>
     match Registry.handle st.registry args with
     | some (r, o) => ({ st with registry := r }, o)
+    | none => (st, "bad-op")
+  | "debug" :: args =>
+    match Debugging.handle st.debug args with
+    | some (p, o) => ({ st with debug := p }, o)
+    | none => (st, "bad-op")
+  | "allow" :: args =>
+    match Allowlist.handle st.allow args with
+    | some (a, o) => ({ st with allow := a }, o)
     | none => (st, "bad-op")
   | _ => (st, "bad-op")
 
